@@ -3,6 +3,7 @@ import TantivyModel.Model.Store.Store
 import TantivyModel.Model.Store.Version
 import TantivyModel.Model.Store.VInt32
 import TantivyModel.Model.Store.JsonNumber
+import TantivyModel.Model.Store.DocPath
 /-!
 Line protocol of the C09 model (doc store). Compression is `none` in every whole-file request
 (the harness feeds lz4/zstd stores block-wise after decompressing with the real codec).
@@ -145,6 +146,18 @@ def handle : List String → String
     match n.toNat? with
     | some n => hexOfBytes (vintEnc n)
     | none => "bad-op"
+  | ["cdoc", t] =>
+    -- `CompactDoc::add_field_value` of one value (canonical text, on-disk reading of floats) into an
+    -- empty document: node_data, the address, and the value read back (written as on disk)
+    match parseValue t.toList with
+    | some (d, []) =>
+      let m := diskToMem d
+      let r := cdAdd [] m
+      let back := match cdRead (r.1.length + 2) r.1 r.2 with
+        | some v => showValue (memToDisk v)
+        | none => "err"
+      s!"{hexOfBytes r.1}|{r.2.ty}:{r.2.addr}|{back}"
+    | _ => "bad-op"
   | ["jsonnum", n] =>
     -- how an integer of a JSON document is typed (canonical prefix of the stored value)
     match n.toInt? with
